@@ -122,16 +122,16 @@ def run(c, chk):
     sites = title_sites(c, ex)
     # the merge site used by the parser ("a repeated title replaces that section in place") must fold case
     # like option names do: according to the context's flags
-    if 'cfg_t' not in sites.get('cfg_setopt', set()):
+    if 'cfg_t' not in merge_words(c, sites):
         chk.fail('R9.3', 'title-merge-case:cfg_setopt', c.where(c.need('cfg_setopt')),
                  'cfg_setopt() no longer compares an incoming title with the existing ones under the context\'s CFGF_NOCASE (found: %s): '
                  'in a case-insensitive context a repeated title in other letter case is appended instead of replacing the section'
                  % (sorted(str(x) for x in sites.get('cfg_setopt', [])) or 'no comparison of its own'))
-    words = set(w for ws in sites.values() for w in ws)
+    words = set(w for ws in title_sites.combos.values() for w in ws)
     if len(sites) < 2:
         raise report.Broken('title comparison sites not found (%s)' % sorted(sites))
     if len(words) == 1 and None not in words:
-        chk.ok('R9.3', 'title comparisons in %s' % sorted(sites), 'all fold case according to %s.flags' % list(words)[0], sample=True)
+        chk.ok('R9.3', 'title comparisons in %s' % sorted(sites), 'all fold case according to %s' % ' | '.join(x + '.flags' for x in list(words)[0].split('+')), sample=True)
     else:
         desc = '; '.join('%s(): %s' % (k, '/'.join(sorted(str(x) for x in v))) for k, v in sorted(sites.items()))
         chk.fail('R9.3', 'title-case-source', c.where(c.need('cfg_opt_gettsecidx')),
@@ -166,6 +166,7 @@ def run(c, chk):
 def title_sites(c, ex):
     """{function: set of struct names whose flags word decides case folding of a title comparison}"""
     sites = {}
+    combos = title_sites.combos = {}
     for f in c.confuse.funcs.values():
         if f.name in c.unknown_funcs:
             continue          # a helper is explored as part of the function it was split off
@@ -179,12 +180,25 @@ def title_sites(c, ex):
                     word = None
                     for cn, t, _ in p.assume[:e.seq]:
                         d = pm.describe_cond(cn)
-                        if d.endswith('->flags has NOCASE') and t:
-                            a = find_flags_addr(cn)
-                            if a is not None:
-                                word = a[2]
-                    sites.setdefault(f.name, set()).add(word)
+                        if d.endswith('has NOCASE') and t:
+                            ws = sorted(set(a[2] for a in find_flags_addrs(cn)))
+                            if ws:
+                                word = '+'.join(ws)
+                    for w_ in (word.split('+') if word else [None]):
+                        sites.setdefault(f.name, set()).add(w_)
+                    combos.setdefault(f.name, set()).add(word)
     return sites
+
+
+def merge_words(c, sites):
+    """flag words under which cfg_setopt() compares an incoming title: its own comparison, or that of the title lookup
+    it delegates to"""
+    out = set(sites.get('cfg_setopt', set()))
+    for call in c.deep_calls(c.need('cfg_setopt')):
+        n = call.callee_name()
+        if n in sites and n != 'cfg_setopt':
+            out |= set(sites[n])
+    return out
 
 
 def plus1(i):
@@ -193,6 +207,20 @@ def plus1(i):
     if i[0] == 'bin' and i[1] == 'add' and sym.is_const(i[3]):
         return ('bin', 'add', i[2], ('c', i[3][1] + 1))
     return ('bin', 'add', i, ('c', 1))
+
+
+def find_flags_addrs(cn):
+    """every ('fld', base, struct, 'flags') address inside an is_set() condition (a test may combine several words)"""
+    found = []
+
+    def walk(v):
+        if isinstance(v, tuple):
+            if v and v[0] == 'fld' and len(v) > 3 and v[3] == 'flags':
+                found.append(v)
+            for x in v:
+                walk(x)
+    walk(cn)
+    return found
 
 
 def find_flags_addr(cn):
